@@ -686,6 +686,8 @@ def build(repo):
                     assert(16 <= sz(e) <= 2048);
                     assert((request_block1.num as int) * sz(e) <= 65535 * 2048) by (nonlinear_arith)
                         requires 0 <= request_block1.num as int <= 65535, 0 <= sz(e) <= 2048;
+                    // (the product may be written either way round in the code)
+                    assert(sz(e) * (request_block1.num as int) == (request_block1.num as int) * sz(e)) by (nonlinear_arith);
                 }''')
     # C09 step: what the buffer holds up to the end of this block (stated from the buffer as it is right before the splice,
     # so that a handler which first drops stale data - e.g. restarts at block 0 - is covered by the same argument)
